@@ -48,6 +48,8 @@
 #include "Mesh/MeshEStandard.hpp"
 #include "LithoRule/Rule.hpp"
 #include "LithoRule/RuleShift.hpp"
+#include "LithoRule/RuleShadow.hpp"
+#include "Mesh/MeshSpherical.hpp"
 #include "LithoRule/Node.hpp"
 #include "Faults/Faults.hpp"
 #include "Fractures/FracEnviron.hpp"
@@ -1607,6 +1609,23 @@ ASerializable* makeMeshEStandard(Rng& r)
   for (int i = 0; i < s.nmesh; i++) for (int k = 0; k <= s.ndim; k++) ms.setValue(i, k, s.cells[i][k]);
   return MeshEStandard::createFromExternal(ap, ms, false);
 }
+// meshing of the sphere: apices are (longitude, latitude) in degrees, meshes are triangles
+ASerializable* makeMeshSpherical(Rng& r)
+{
+  int na = (int)r.range(4, 14);
+  MatrixRectangular ap(na, 2);
+  for (int i = 0; i < na; i++) { ap.setValue(i, 0, r.uniform(0., 359.)); ap.setValue(i, 1, r.uniform(-85., 85.)); }
+  int nm = (int)r.range(1, 10);
+  MatrixInt ms(nm, 3);
+  for (int i = 0; i < nm; i++)
+  {
+    int a = (int)r.below(na), b = (int)r.below(na), cc = (int)r.below(na);
+    if (b == a) b = (a + 1) % na;
+    while (cc == a || cc == b) cc = (cc + 1) % na;
+    ms.setValue(i, 0, a); ms.setValue(i, 1, b); ms.setValue(i, 2, cc);
+  }
+  return MeshSpherical::create(ap, ms);
+}
 bool meshHasBox(const AMesh* m) { return m->getNDim() > 0 && m->toString().find("Bounding Box") != std::string::npos; }
 void describeMesh(const ASerializable* o, Desc& d)
 {
@@ -1619,6 +1638,15 @@ void describeMesh(const ASerializable* o, Desc& d)
   d.I("nmeshes", m->getNMeshes());
   d.I("hasbox", meshHasBox(m));
   if (const MeshEStandard* s = dynamic_cast<const MeshEStandard*>(o))
+  {
+    d.I("apices.nrows", s->getApices().getNRows());
+    d.I("apices.ncols", s->getApices().getNCols());
+    d.VD("apices", s->getApices().getValues());
+    d.I("meshes.nrows", s->getMeshes().getNRows());
+    d.I("meshes.ncols", s->getMeshes().getNCols());
+    d.VI("meshes", s->getMeshes().getValues());
+  }
+  if (const MeshSpherical* s = dynamic_cast<const MeshSpherical*>(o))
   {
     d.I("apices.nrows", s->getApices().getNRows());
     d.I("apices.ncols", s->getApices().getNCols());
@@ -1653,6 +1681,13 @@ std::string consistentMesh(const ASerializable* o)
   {
     if (s->getApices().getNRows() > 0 && s->getApices().getNCols() != ndim) return "apices not sized by ndim";
     if (s->getMeshes().getNRows() > 0 && s->getMeshes().getNCols() != ndim + 1) return "param: meshes not sized by ndim+1";
+    VectorInt v = s->getMeshes().getValues();
+    for (int a : v) if (a < 0 || a >= na) return "mesh refers to apex " + std::to_string(a) + " of " + std::to_string(na);
+  }
+  if (const MeshSpherical* s = dynamic_cast<const MeshSpherical*>(o))
+  {
+    if (s->getApices().getNRows() != na) return "apices matrix not sized by the apex count";
+    if (s->getMeshes().getNRows() != nm) return "meshes matrix not sized by the mesh count";
     VectorInt v = s->getMeshes().getValues();
     for (int a : v) if (a < 0 || a >= na) return "mesh refers to apex " + std::to_string(a) + " of " + std::to_string(na);
   }
@@ -1691,6 +1726,7 @@ void probeMesh(ASerializable* o, Desc& d)
       d.D("extmax" + std::to_string(k), m->getExtendMax(k));
     }
   int pick[4] = {0, nm / 3, nm / 2, nm - 1};
+  VectorDouble sizes; // one vector: the size of a thin mesh is known to the rounding of its edges, i.e. relative to the larger ones
   for (int q = 0; q < 4; q++)
   {
     int im = pick[q];
@@ -1701,8 +1737,10 @@ void probeMesh(ASerializable* o, Desc& d)
       d.I(k + ".apex" + std::to_string(c), m->getApex(im, c));
       for (int i = 0; i < ndim; i++) d.D(k + ".c" + std::to_string(c) + std::to_string(i), m->getCoor(im, c, i));
     }
-    d.D(k + ".size", m->getMeshSize(im));
+    sizes.push_back(m->getMeshSize(im));
   }
+  if (dynamic_cast<MeshSpherical*>(m) != nullptr) sizes.push_back(12.566370614359172); // the whole unit sphere: scale of spherical areas
+  d.VD("msize", sizes);
   int pa[3] = {0, na / 2, na - 1};
   for (int q = 0; q < 3; q++)
     if (pa[q] >= 0 && pa[q] < na)
@@ -1818,6 +1856,11 @@ ASerializable* makeRuleShift(Rng& r)
   if (rule == nullptr) rule = RuleShift::createFromFaciesCount(3, shift);
   return rule;
 }
+ASerializable* makeRuleShadow(Rng& r)
+{
+  VectorDouble shift = {r.uniform(0.1, 2.), r.chance(0.3) ? 0. : r.uniform(-1., 1.), r.chance(0.5) ? 0. : r.uniform(0.1, 1.)};
+  return new RuleShadow(r.uniform(5., 60.), r.uniform(0.1, 2.), r.uniform(0.1, 2.), shift);
+}
 void describeNode(const Node* n, const std::string& k, int depth, Desc& d)
 {
   if (n == nullptr) { d.S(k, "none"); return; }
@@ -1850,6 +1893,13 @@ void describeRule(const ASerializable* o, Desc& d)
   }
   describeNode(r->getMainNode(), "n", 0, d);
   if (const RuleShift* s = dynamic_cast<const RuleShift*>(o))
+  {
+    d.D("slope", s->getSlope());
+    d.D("shdown", s->getShDown());
+    d.D("shdsup", s->getShDsup());
+    d.VD("shift", s->getShift());
+  }
+  if (const RuleShadow* s = dynamic_cast<const RuleShadow*>(o))
   {
     d.D("slope", s->getSlope());
     d.D("shdown", s->getShDown());
@@ -2071,6 +2121,8 @@ std::vector<ClassAdapter> buildAdapters()
   add("Table", makeTable, [] { return (ASerializable*)new Table(); }, nfLoader<Table>(), describeTable, consistentTable, probeTable);
   add("Rule", makeRule, [] { return (ASerializable*)new Rule(); }, nfLoader<Rule>(), describeRule, consistentRule, probeRule);
   add("RuleShift", makeRuleShift, [] { return (ASerializable*)new RuleShift(); }, nullptr, describeRule, consistentRule, probeRule);
+  add("RuleShadow", makeRuleShadow, [] { return (ASerializable*)new RuleShadow(); }, nullptr, describeRule, consistentRule, probeRule);
+  add("MeshSpherical", makeMeshSpherical, [] { return (ASerializable*)new MeshSpherical(); }, nfLoader<MeshSpherical>(), describeMesh, consistentMesh, probeMesh);
   add("Faults", makeFaults, [] { return (ASerializable*)new Faults(); }, nfLoader<Faults>(), describeFaults, consistentFaults, probeFaults);
   add("FracEnviron", makeFracEnviron, [] { return (ASerializable*)new FracEnviron(); }, nfLoader<FracEnviron>(), describeFrac, consistentFrac, probeFrac);
   return v;
